@@ -83,7 +83,7 @@ def build_subcommand_name_exists(fx, res, rule):
         cl_ok = False
         if m2:
             mp = [x for x in b.calls_to(r"Option(<[^>]*>)?::map$") if expr(b, x.dest) + "#Some.0" == name or expr(b, x.args[0]).startswith("find_subcommand(")]
-            cl_ok = bool(mp) and all(re.fullmatch(r"(to_owned|to_string|clone|into)\(get_name\(\w+\)\)", expr(cb, 0)) is not None for x in mp for cb in closure_bodies(fx, x)[-1:])
+            cl_ok = bool(mp) and all(re.fullmatch(r"(to_owned|to_string|clone|into)\(get_name\(\w+\)\)", expr(cb, 0)) is not None for x in mp for cb in own_closures(fx, x))
         res.check(m2 is not None and m2.group(1) == recv and cl_ok, rule, "lemma|help-subcommand-name-is-canonical", c.where(), "_build_subcommand(find_subcommand(x).get_name()).unwrap() on the same command",
                   "parse_help_subcommand unwraps _build_subcommand(%s): the name does not come from find_subcommand(..).get_name() on the same command (an alias or an inferred spelling is not a subcommand NAME, the lookup returns None and `help <that>` panics)" % name[:100])
     res.floor(rule, "unwrap of _build_subcommand in parse_help_subcommand", n, 1)
